@@ -586,7 +586,8 @@ pub fn run_case(ctx: &Ctx, idx: u64) -> Vec<CaseOut> {
                     if base.fmt == Fmt::Lzip && base.members.iter().any(|m| m.0 > 0 && cut > m.0 && cut < m.0 + 4) {
                         continue;
                     }
-                    judge(agg, &base, reader, &c, "truncate", &format!("cut at {cut}"), cut, -((n - cut) as isize), &cell);
+                    let cls = if cut == 0 { "truncate-to-zero-bytes" } else { "truncate" };
+                    judge(agg, &base, reader, &c, cls, &format!("cut at {cut}"), cut, -((n - cut) as isize), &cell);
                 }
                 for k in 0..64 {
                     let mut c = base.bytes.clone();
